@@ -24,9 +24,9 @@ Open Scope Z_scope.
    replay of the held inputs, whatever was predicted on the way. *)
 Theorem C01_confirmed_frames_use_held_inputs :
   forall (predict : Z -> Z), (forall x, predict (predict x) = predict x) -> predict 0 = 0 ->
-  forall (ops : list sop) (n w d : Z) (kinds : list pkind) (eps : list (list Z)) (p : p2p) (outs : list (pout * apires)),
+  forall (ops : list sop) (n w d : Z) (kinds : list pkind) (eps : list (list Z)) (nspec : nat) (p : p2p) (outs : list (pout * apires)),
   1 <= w -> 0 <= d -> w + d + 3 <= INPUT_QUEUE_LENGTH -> 0 < n -> Z.of_nat (length kinds) = n -> players_only kinds ->
-  srun_in predict (session_start n w false d kinds eps 0) ops = Ok (p, outs) ->
+  srun_in predict (session_start n w false d kinds eps nspec) ops = Ok (p, outs) ->
   exists g gs, exec_outs w (game0 w) outs = Some g /\ QS w d p gs /\ gframe g = s_current (ps_sync p) /\
     forall h hist low f, nth_error gs h = Some (hist, low) ->
       0 <= f <= s_last_confirmed (ps_sync p) -> f < s_current (ps_sync p) ->
@@ -39,9 +39,9 @@ Proof. exact confirmed_frames_use_held_inputs. Qed.
    or replaced by a prediction that was never corrected. *)
 Theorem C01_confirmed_frames_use_delivered_inputs :
   forall (predict : Z -> Z), (forall x, predict (predict x) = predict x) -> predict 0 = 0 ->
-  forall (ops : list sop) (n w d : Z) (kinds : list pkind) (eps : list (list Z)) (p : p2p) (outs : list (pout * apires)),
+  forall (ops : list sop) (n w d : Z) (kinds : list pkind) (eps : list (list Z)) (nspec : nat) (p : p2p) (outs : list (pout * apires)),
   1 <= w -> 0 <= d -> w + d + 3 <= INPUT_QUEUE_LENGTH -> 0 < n -> Z.of_nat (length kinds) = n -> players_only kinds ->
-  srun_in predict (session_start n w false d kinds eps 0) ops = Ok (p, outs) ->
+  srun_in predict (session_start n w false d kinds eps nspec) ops = Ok (p, outs) ->
   exists g, exec_outs w (game0 w) outs = Some g /\ gframe g = s_current (ps_sync p) /\
     forall pl e f, 0 <= pl -> nth_error kinds (Z.to_nat pl) = Some (KRemote e) ->
       0 <= f <= s_last_confirmed (ps_sync p) -> f < s_current (ps_sync p) ->
